@@ -3,6 +3,7 @@ conditions for write o load = id)."""
 from __future__ import annotations
 
 import ast
+import copy
 import re
 from typing import Dict, List, Optional, Set, Tuple
 
@@ -85,11 +86,34 @@ def render(e: ast.AST, slots: Dict[str, str]) -> Optional[str]:
     return out
 
 
+class _FStrLocals(ast.NodeTransformer):
+    """f-string pieces kept in single-assignment locals are spliced back into the f-strings that use them"""
+
+    def __init__(self, fn: ast.AST):
+        counts: Dict[str, int] = {}
+        for n in ast.walk(fn):
+            if isinstance(n, ast.Name) and isinstance(n.ctx, ast.Store):
+                counts[n.id] = counts.get(n.id, 0) + 1
+        self.defs = {n.targets[0].id: n.value for n in ast.walk(fn) if isinstance(n, ast.Assign) and len(n.targets) == 1
+                     and isinstance(n.targets[0], ast.Name) and counts.get(n.targets[0].id) == 1 and isinstance(n.value, ast.JoinedStr)}
+
+    def visit_JoinedStr(self, n):
+        vals = []
+        for v in n.values:
+            if isinstance(v, ast.FormattedValue) and isinstance(v.value, ast.Name) and v.value.id in self.defs and v.conversion == -1 and v.format_spec is None:
+                vals += self.visit(copy.deepcopy(self.defs[v.value.id])).values
+            else:
+                vals.append(v)
+        n.values = vals
+        return n
+
+
 def _returns(fn: ast.AST) -> List[ast.AST]:
     out = []
+    tr = _FStrLocals(fn)
     for n in ast.walk(fn):
         if isinstance(n, ast.Return) and n.value is not None:
-            v = n.value
+            v = tr.visit(copy.deepcopy(n.value))
             stack = [v]
             while stack:
                 x = stack.pop()
@@ -279,12 +303,14 @@ def r02_3(ctx):
         (ctx.ok(construct, lc.loc()) if needle in cmp_found else ctx.bad(construct, f"no `line... == {needle}` comparison", lc.loc()))
     construct = "Symbol.config_string/marker line is `{comment_default_value}\\n` before the entry"
     ok = False
+    from .common import expand_locals
     for n in ast.walk(cs.node):
-        if isinstance(n, ast.IfExp) and "has_active_default_value()" in ast.unparse(n.test):
+        tt = expand_locals(cs.node, n.test) if isinstance(n, ast.IfExp) else ""
+        if isinstance(n, ast.IfExp) and "has_active_default_value()" in tt:
             sk = fstring_skeleton(n.body)
             ok = (sk is not None and len(sk) == 2 and isinstance(sk[0], tuple) and sk[0][1].endswith("comment_default_value")
                   and sk[1] == "\n" and isinstance(n.orelse, ast.Constant) and n.orelse.value == ""
-                  and not ("not" in ast.unparse(n.test).split("self.has_active")[0]))
+                  and not ("not" in tt.split("self.has_active")[0]))
     (ctx.ok(construct, cs.loc()) if ok else ctx.bad(construct, "the marker is no longer `<marker>\\n` exactly when has_active_default_value()", cs.loc()))
     construct = "DeprecatedOptions.deprecated_config_contents/block wrapped in DEP_OP_BEGIN ... DEP_OP_END"
     ok = False
